@@ -194,6 +194,15 @@ def parameter_points(tier):
                     if cs != ('RED', 'GREEN', 'BLUE', 'YELLOW') and (nb, ne) not in ((1, 2), (1, 3)):
                         continue
                     pts.append(('memory_rooms', {'shape': sh, 'layout': lay, 'colors': cs, 'num_beacons': nb, 'num_exits': ne}))
+    # larger sizes for the room layouts (wall coordinates come from a division: numeric corners show up only at sizes
+    # far beyond the shipped ones); one axis large, the other small
+    big = range(10, 41) if tier == 'quick' else range(10, 72)
+    for size in big:
+        for rooms_n in range(1, 15):
+            pts.append(('rooms', {'shape': (size, 7), 'layout': (rooms_n, 2)}))
+            pts.append(('rooms', {'shape': (7, size), 'layout': (2, rooms_n)}))
+        for rooms_n in (2, 5, 7, 11, 13):
+            pts.append(('memory_rooms', {'shape': (size, 7), 'layout': (rooms_n, 1), 'colors': ('RED', 'GREEN'), 'num_beacons': 1, 'num_exits': 2}))
     for name, params in SHIPPED:
         if (name, params) not in pts:
             pts.append((name, params))
